@@ -384,6 +384,8 @@ class Case:
             if p6['calls'] != p4['calls']:
                 self.violation('C20/line-v4-v6-differ', f'{where}: v4 and v6 API parse {line!r} differently', 'line', line=line, v6=p6['calls'], v4=p4['calls'])
                 return None
+            if p6['calls'][0]['rib'] is not True:
+                self.res.count('rib-call-declined-for-a-selected-neighbor(deployment, not syntax)')
             out.append(dict(p6['calls'][0], line=line))
         return out
 
